@@ -30,6 +30,9 @@ fn check_from(code: i32) -> Option<(String, String)> {
     }
 }
 
+/// values for the version field: the one of the format, its byte-swapped form, 0, -1, a neighbour
+const HEADER_VERSIONS: [i32; 5] = [1000, 0xE803_0000u32 as i32, 0, -1, 1001];
+
 fn header_with(code: i32) -> Vec<u8> {
     codec::encode_header(50, code, &[0.0; 8])
 }
@@ -328,6 +331,20 @@ pub fn check(tier: Tier) -> i32 {
         if let Some((sig, d)) = check_header(*c, &mut hdr) {
             ctx.violation(sig, || json!({"route": "header", "code": c}), || d);
         }
+        // the same header with other values in the fields a reader has no use for (version, the unused words):
+        // the verdict on the type code must not depend on them
+        for (vi, version) in HEADER_VERSIONS.iter().enumerate() {
+            let mut h2 = header_with(0);
+            h2[28..32].copy_from_slice(&version.to_le_bytes());
+            if vi % 2 == 1 {
+                for b in h2[4..24].iter_mut() {
+                    *b = 0xA5;
+                }
+            }
+            if let Some((sig, d)) = check_header(*c, &mut h2) {
+                ctx.violation(format!("{}[version]", sig), || json!({"route": "header-version", "code": c, "version": version}), || format!("version field {:#x}: {}", version, d));
+            }
+        }
         for (k, f) in [(0usize, check_record_typed as fn(i32) -> Option<(String, String)>)] {
             match catch(|| f(*c)) {
                 Ok(Some((sig, d))) => ctx.violation(sig, || json!({"route": "typed-record", "code": c}), || d),
@@ -388,7 +405,7 @@ pub fn check(tier: Tier) -> i32 {
             tier,
             level: "model_checking",
             engine: "complete enumeration of the 2^32 code domain on the real ShapeType::from (and Header::read_from in the thorough tier), plus structured codes through header and record routes",
-            rule: "ShapeType::from(c) for all 2^32 values c against the literal ESRI table (counted in blocks of 2^20, so distinct == evaluations by construction for that part); header, one-record-file (generic: content of 4 / 20 / 36 bytes x {iter_shapes, read, read_nth_shape through an index}; typed: read as the type whose code equals the low byte), and index-header (with_shx and from_path) routes over the structured set (|c|<=4096, all one- and two-bit patterns and complements, byte-swapped / shifted / negated valid codes, +-4096 around i32::MIN/MAX, valid codes +- m*256 for m up to 2^23) in quick and over all 2^32 headers in thorough; predicates and Display for the 14 types",
+            rule: "ShapeType::from(c) for all 2^32 values c against the literal ESRI table (counted in blocks of 2^20, so distinct == evaluations by construction for that part); header (also with the version field byte-swapped, 0, -1, 1001 and the unused words filled), one-record-file (generic: content of 4 / 20 / 36 bytes x {iter_shapes, read, read_nth_shape through an index}; typed: read as the type whose code equals the low byte), and index-header (with_shx and from_path) routes over the structured set (|c|<=4096, all one- and two-bit patterns and complements, byte-swapped / shifted / negated valid codes, +-4096 around i32::MIN/MAX, valid codes +- m*256 for m up to 2^23) in quick and over all 2^32 headers in thorough; predicates and Display for the 14 types",
             bounds: json!({"domain": "2^32 complete", "structured_codes": codes.len(), "header_route_complete": full_header}),
             exhaustive: true,
             assumptions: vec!["distinct_nontrivial for the 2^32 sweep is the size of the swept domain (each value visited exactly once by construction), not a hash count".into()],
@@ -409,6 +426,12 @@ pub fn replay(v: &Value) -> Vec<(String, String)> {
     let r = match route {
         "from" => check_from(code).map(|(s, d)| (format!("from:{}", s), d)),
         "header" => check_header(code, &mut header_with(0)),
+        "header-version" => {
+            let mut h = header_with(0);
+            let ver = v.get("version").and_then(|x| x.as_i64()).unwrap_or(1000) as i32;
+            h[28..32].copy_from_slice(&ver.to_le_bytes());
+            check_header(code, &mut h)
+        }
         "record" => check_record(code),
         "typed-record" => check_record_typed(code),
         "shx-header" => check_shx_header(code, false),
